@@ -118,10 +118,10 @@ end
 inductive Exit | ok | err | panic | fuel
   deriving DecidableEq, Repr
 
-/-- The two closures of `Deltify` as seen by its main loop. -/
-structure Sink (σ : Type) where
-  sendData : List UInt8 → σ → σ × Bool
-  sendBlock : Nat → σ → σ × Bool
+/-- The two closures of `Deltify` as seen by its main loop (`sd` = `sendData`,
+`sb` = `sendBlock`; the result flag is `true` when the closure returned an error). -/
+abbrev SendData (σ : Type) := List UInt8 → σ → σ × Bool
+abbrev SendBlock (σ : Type) := Nat → σ → σ × Bool
 
 section
 variable {D : Type} [DecidableEq D] (H : List UInt8 → D)
@@ -138,25 +138,26 @@ def findMatch (full : List (BlockHash D)) (weak : UInt32) (window : List UInt8) 
     (potentials.find? fun p => p.1.strong = strong).map (·.2)
 
 /-- Second half of a loop iteration: look for a match for the block at the end
-of the buffer, transmit, truncate. Returns the new buffer and an error flag. -/
-def matchStep {σ : Type} (sink : Sink σ) (bs cap : Nat) (full : List (BlockHash D))
+of the buffer, transmit, truncate. Returns the new buffer and an error flag
+(on an error `Deltify` returns at once; the buffer is then reported as empty). -/
+def matchStep {σ : Type} (sd : SendData σ) (sb : SendBlock σ) (bs cap : Nat) (full : List (BlockHash D))
     (buf : List UInt8) (weak : UInt32) (s : σ) : σ × List UInt8 × Bool :=
   match findMatch H full weak (buf.drop (buf.length - bs)) with
   | some p =>
-    let (s1, e1) := sink.sendData (buf.take (buf.length - bs)) s
-    if e1 then (s1, buf, true) else
-    let (s2, e2) := sink.sendBlock p s1
-    if e2 then (s2, buf, true) else (s2, [], false)
+    let (s1, e1) := sd (buf.take (buf.length - bs)) s
+    if e1 then (s1, [], true) else
+    let (s2, e2) := sb p s1
+    if e2 then (s2, [], true) else (s2, [], false)
   | none =>
     if buf.length = cap then
-      let (s1, e1) := sink.sendData (buf.take (buf.length - bs)) s
-      if e1 then (s1, buf, true) else (s1, buf.drop (buf.length - bs), false)
+      let (s1, e1) := sd (buf.take (buf.length - bs)) s
+      if e1 then (s1, [], true) else (s1, buf.drop (buf.length - bs), false)
     else (s, buf, false)
 
 /-- The main `for` loop of `Deltify`. `t` is the unread target, `buf` the
 occupied prefix of the buffer (`occupancy = buf.length`), `r1 r2` the weak hash
 parameters of the block at the end of the buffer. -/
-def mainLoop {σ : Type} (sink : Sink σ) (bs cap : Nat) (full : List (BlockHash D)) :
+def mainLoop {σ : Type} (sd : SendData σ) (sb : SendBlock σ) (bs cap : Nat) (full : List (BlockHash D)) :
     Nat → List UInt8 → List UInt8 → UInt32 → UInt32 → σ → σ × List UInt8 × Exit
   | 0, _, buf, _, _, s => (s, buf, .fuel)
   | fuel + 1, t, buf, r1, r2, s =>
@@ -165,46 +166,50 @@ def mainLoop {σ : Type} (sink : Sink σ) (bs cap : Nat) (full : List (BlockHash
       else
         let buf' := t.take bs
         let (w, r1', r2') := weakHash buf' bs
-        let (s', buf'', e) := matchStep H sink bs cap full buf' w s
-        if e then (s', buf'', .err) else mainLoop sink bs cap full fuel (t.drop bs) buf'' r1' r2' s'
+        let (s', buf'', e) := matchStep H sd sb bs cap full buf' w s
+        if e then (s', buf'', .err) else mainLoop sd sb bs cap full fuel (t.drop bs) buf'' r1' r2' s'
     else if buf.length < bs then (s, buf, .panic)
     else
       match t with
       | [] => (s, buf, .ok)                    -- ReadByte: io.EOF; break
       | b :: t' =>
         let (w, r1', r2') := rollWeakHash r1 r2 (buf.getD (buf.length - bs) 0) b bs
-        let (s', buf'', e) := matchStep H sink bs cap full (buf ++ [b]) w s
-        if e then (s', buf'', .err) else mainLoop sink bs cap full fuel t' buf'' r1' r2' s'
+        let (s', buf'', e) := matchStep H sd sb bs cap full (buf ++ [b]) w s
+        if e then (s', buf'', .err) else mainLoop sd sb bs cap full fuel t' buf'' r1' r2' s'
+
+/-- The blocks that go into the lookup table `weakToBlockHashes`: all of them,
+except a short last block. -/
+def fullHashes (sig : Signature D) : List (BlockHash D) :=
+  if sig.lastBlockSize != sig.blockSize then sig.hashes.take (sig.hashes.length - 1) else sig.hashes
+
+/-- The check for a match of the short last block against the end of the
+buffer after the main loop. -/
+def shortMatch (sig : Signature D) (buf : List UInt8) : Bool :=
+  if sig.lastBlockSize != sig.blockSize && decide (buf.length ≥ sig.lastBlockSize) then
+    let cand := buf.drop (buf.length - sig.lastBlockSize)
+    match sig.hashes[sig.hashes.length - 1]? with
+    | some hb => (weakHash cand sig.blockSize).1 == hb.weak && decide (H cand = hb.strong)
+    | none => false
+  else false
 
 /-- `Deltify` from the creation of the lookup table up to and including the
 final `sendData(buffer[:occupancy])`; the final flush of the pending coalesced
 operation is done by the caller (`deltify`). `maxOp` is already defaulted. -/
-def deltifyCore {σ : Type} (sink : Sink σ) (sig : Signature D) (maxOp : Nat) (target : List UInt8)
+def deltifyCore {σ : Type} (sd : SendData σ) (sb : SendBlock σ) (sig : Signature D) (maxOp : Nat) (target : List UInt8)
     (s0 : σ) : σ × Exit :=
-  let bs := sig.blockSize
-  let last := sig.lastBlockSize
-  let short := last != bs
-  let lastIdx := sig.hashes.length - 1
-  let full := if short then sig.hashes.take lastIdx else sig.hashes
-  let (s, buf, ex) := mainLoop H sink bs (maxOp + bs) full (target.length + 1) target [] 0 0 s0
+  let (s, buf, ex) := mainLoop H sd sb sig.blockSize (maxOp + sig.blockSize) (fullHashes sig)
+    (target.length + 1) target [] 0 0 s0
   if ex != .ok then (s, ex) else
-  let matched : Bool :=
-    if short && buf.length ≥ last then
-      let cand := buf.drop (buf.length - last)
-      match sig.hashes[lastIdx]? with
-      | some hb => (weakHash cand bs).1 == hb.weak && decide (H cand = hb.strong)
-      | none => false
-    else false
-  if matched then
-    let (s1, e1) := sink.sendData (buf.take (buf.length - last)) s
+  if shortMatch H sig buf then
+    let (s1, e1) := sd (buf.take (buf.length - sig.lastBlockSize)) s
     if e1 then (s1, .err) else
-    let (s2, e2) := sink.sendBlock lastIdx s1
+    let (s2, e2) := sb (sig.hashes.length - 1) s1
     if e2 then (s2, .err) else
     -- occupancy = 0; sendData(buffer[:0])
-    let (s3, e3) := sink.sendData [] s2
+    let (s3, e3) := sd [] s2
     if e3 then (s3, .err) else (s3, .ok)
   else
-    let (s3, e3) := sink.sendData buf s
+    let (s3, e3) := sd buf s
     if e3 then (s3, .err) else (s3, .ok)
 
 end
@@ -256,9 +261,6 @@ def sendData (maxOp : Nat) (data : List UInt8) (s : Co × τ) : (Co × τ) × Bo
     let (tx'', e) := chunkLoop xmit maxOp data.length data tx
     ((co, tx''), e)
 
-def realSink (fixed : Bool) (maxOp : Nat) : Sink (Co × τ) :=
-  { sendData := sendData xmit maxOp, sendBlock := sendBlock xmit fixed }
-
 /-- `chunkAndTransmitAll` (after defaulting `maxDataOpSize`): `io.ReadFull` of
 `maxOp` bytes per iteration. -/
 def chunkAll (maxOp : Nat) : Nat → List UInt8 → τ → τ × Bool
@@ -281,7 +283,7 @@ def deltify {D : Type} [DecidableEq D] (H : List UInt8 → D) (fixed : Bool)
     let (tx, e) := chunkAll xmit maxOp (target.length + 1) target tx0
     (tx, if e then .err else .ok)
   else
-    let ((co, tx), ex) := deltifyCore H (realSink xmit fixed maxOp) sig maxOp target
+    let ((co, tx), ex) := deltifyCore H (sendData xmit maxOp) (sendBlock xmit fixed) sig maxOp target
       (({ start := 0, count := 0 } : Co), tx0)
     if ex != .ok then (tx, ex)
     else if co.count > 0 then
